@@ -135,7 +135,10 @@ def main(drivers):
       sys.exit(0 if ok else 2)
     if a.replay:
       case = json.load(open(a.replay))
-      mod.replay(ctx, case)
+      if isinstance(case.get('case'), dict) and case['case'].get('kind') == 'unclassified-exception':
+        mod.run(ctx)        # no smaller unit than the whole check reproduces an exception nobody anticipated
+      else:
+        mod.replay(ctx, case)
     else:
       mod.run(ctx)
     sys.exit(ctx.finish())
@@ -144,9 +147,23 @@ def main(drivers):
     sys.exit(2)
   except SystemExit:
     raise
-  except Exception:  # pylint: disable=broad-except
-    # an exception nobody classified is a failure of the machinery, not a verdict about the property
+  except Exception as e:  # pylint: disable=broad-except
     import traceback
+    text = traceback.format_exc()
+    cause = e
+    while cause is not None:      # a worker process re-raises with the remote traceback as text
+      text += str(getattr(cause, '__cause__', '') or '')
+      cause = getattr(cause, '__cause__', None)
     traceback.print_exc()
+    # Where was it raised?  The innermost frame decides: an exception that escapes the code under test in a scenario in
+    # which the unchanged tree raises none is an observation (the implementation left the behaviours the model allows);
+    # an exception raised by the harness itself is a failure of the machinery, not a verdict about the property.
+    frames = [l.strip() for l in text.splitlines() if l.strip().startswith('File "')]
+    repo_root = os.environ.get('VERIF_REPO') or '/repo'
+    if frames and (repo_root.rstrip('/') + '/vizier/') in frames[-1]:
+      ctx.violation({'via': 'unclassified-exception', 'error': type(e).__name__, 'where': frames[-1].split('/vizier/', 1)[-1].split('"')[0]},
+                    {'kind': 'unclassified-exception', 'error': '%s: %s' % (type(e).__name__, str(e)[:300]), 'raised_at': frames[-1], 'traceback_tail': text[-3000:]})
+      print('NOTE: an exception escaped the code under test where the unchanged tree raises none; reported as a violation, the rest of this check did not run')
+      sys.exit(ctx.finish())
     print('MACHINERY-FAILURE %s: unexpected exception in the driver (see traceback)' % a.prop)
     sys.exit(2)
